@@ -96,6 +96,18 @@ M = {
         "        except (ValueError, TypeError):", ["C02"]),
     "ask-unfix-fail-on-sampler-error": ("optuna/study/study.py",
         "            self._storage.set_trial_state_values(trial_id, TrialState.FAIL)\n            raise", "            raise", ["C02"]),
+    # ---- C04 -------------------------------------------------------------------------------
+    "mem-cas-drop-waiting-test": ("optuna/storages/_in_memory.py",
+        "            if state == TrialState.RUNNING and trial.state != TrialState.WAITING:\n                return False\n", "", ["C04"]),
+    "mem-waiting-cursor-plus-one": ("optuna/storages/_in_memory.py",
+        "                            self._prev_waiting_trial_number[study_id] = trial.number\n",
+        "                            self._prev_waiting_trial_number[study_id] = trial.number + 1\n", ["C04"]),
+    "pop-waiting-ignores-false": ("optuna/study/study.py",
+        "            if not self._storage.set_trial_state_values(trial._trial_id, state=TrialState.RUNNING):\n                continue\n",
+        "            self._storage.set_trial_state_values(trial._trial_id, state=TrialState.RUNNING)\n", ["C04"]),
+    "journal-ownership-before-state-test": ("optuna/storages/journal/_storage.py",
+        "        state = TrialState(log[\"state\"])\n        if state == self._trials[trial_id].state and state == TrialState.RUNNING:",
+        "        state = TrialState(log[\"state\"])\n        if state == TrialState.RUNNING and self._is_issued_by_this_worker(log):\n            self._worker_id_to_owned_trial_id[self.worker_id] = trial_id\n            return None if state == self._trials[trial_id].state else self._trials.__setitem__(trial_id, (lambda t: (setattr(t, 'state', state), t)[1])(copy.copy(self._trials[trial_id])))\n        if state == self._trials[trial_id].state and state == TrialState.RUNNING:", ["C04"]),
     # ---- C05 -------------------------------------------------------------------------------
     "file-unfix-torn-tail": ("optuna/storages/journal/_file.py",
         "            self._drop_unterminated_tail()\n", "", ["C05"]),
